@@ -826,6 +826,13 @@ pub fn check_prog(s: &mut Sink, eng: Eng, c: &ProgCase, rp: &Value) -> ProgStats
             compiled = false;
         }
         if !compiled {
+            if c.has_local_call && eng == Eng::Cl {
+                // a local call must be refused even when a helper is registered under an id equal
+                // to its displacement
+                for i in c.prog.iter().filter(|i| i.opc == 0x85 && i.src == 1) {
+                    let _ = r.vm.register_helper(i.imm as u32, gather_helper);
+                }
+            }
             match catch(|| r.vm.compile(eng)) {
                 Ok(Ok(())) => {
                     if c.has_local_call && eng == Eng::Cl {
